@@ -2027,6 +2027,9 @@ void ADFH_Children_Names(const double pid,
 #endif
     if (names[0]==0)
     {
+#ifdef ADFH_NO_ORDER
+      mta_root->i_count = 0; /* the second pass counts the children again */
+#endif
 #if ADFH_HDF5_HAVE_112_API
       H5Literate2(hpid,H5_INDEX_NAME,H5_ITER_INC,
                  NULL,children_names,(void *)names);
